@@ -39,7 +39,7 @@ def run(ctx):
     # ... and the same hash: every value xor-ed into the hash is a key of the position, the importer folds each square once and takes
     # the state key only when rights and en-passant file are final (a played and a re-imported game then hash alike)
     p04.rule_k5(ctx, F)
-    p04.rule_k6(ctx, F)
+    p04.rule_k6(ctx, F, parts=("rank", "slots", "final", "side"))
     for i in ctx.instances[before:]:
         i["rule"] = "C11.T6(" + i["rule"] + ")"
     for v in ctx.violations[nv:]:
@@ -198,7 +198,7 @@ def writer_text(F, rights, side, ep):
         elif x[0] == "opaque":
             parts.append(("LOOP",))
         else:
-            parts.append(("TERM", hir.fmt(x, 200)))
+            parts.append(("TERM", hir.fmt(x, 200), x))
     return parts, None
 
 
@@ -211,6 +211,7 @@ def writer_fields(ctx, F, em):
     n_cases = 0
     err = None
     fm_terms = set()
+    raw_terms = {}
     try:
         for side in ("White", "Black"):
             for mask in range(16):
@@ -230,6 +231,9 @@ def writer_fields(ctx, F, em):
                         continue
                     txt = "".join(p_ if isinstance(p_, str) else "\x00" for p_ in tail)
                     terms = [p_[1] for p_ in tail if not isinstance(p_, str)]
+                    for p_ in tail:
+                        if not isinstance(p_, str) and len(p_) > 2:
+                            raw_terms[p_[1]] = p_[2]
                     f = txt.split(" ")
                     if len(f) != 6 or f[0] != "":
                         bad["shape"].append((side, mask, ep, txt.replace("\x00", "<?>")))
@@ -279,6 +283,25 @@ def writer_fields(ctx, F, em):
           and not any(a_.get("k") == "Loop" for a_ in anc)]        # (the ones inside the placement loops print run lengths)
     ts_bad = [str(hir.strip(n["recv"]).get("ty")) for n in ts if str(hir.strip(n["recv"]).get("ty")).lstrip("&") not in UNS]
     fm_ok = not bad["tail"] and len(fm_terms) >= 1 and all("to_string(" in t_ for t_ in fm_terms) and not ts_bad
+    # at the start of a game (nothing recorded yet, loaded counters at their smallest) a computed counter is not negative: an
+    # unsigned `len / 2 - 1` panics in debug builds and prints 18446744073709551615 otherwise
+    def at_start(t):
+        if not isinstance(t, tuple) or isinstance(t, hir.PK):
+            return t
+        if t[:1] == ("call",) and str(t[1]).rsplit("::", 1)[-1] in ("len", "count") and "to_string" not in str(t[1]):
+            return ("lit", 0)
+        if t[:1] == ("field",) and t[1] == ("var", "self"):
+            return ("lit", 1)
+        return tuple(at_start(x) if isinstance(x, tuple) else x for x in t)
+    neg = []
+    for txt_, x in sorted(raw_terms.items()):
+        if x[:1] == ("call",) and "to_string" in str(x[1]) and len(x[2]) == 1:
+            v0 = hir.sym_int(hir.fold(at_start(x[2][0]), {}))
+            if v0 is not None and v0 < 0:
+                neg.append((txt_, v0))
+    ctx.check("C11.T7", "writer:counters-not-negative-at-the-start", not neg, fn=WRITER, file=fn["file"],
+              what="a computed counter field is negative for a game with no recorded move (unsigned arithmetic: a panic in debug builds, "
+                   "a 20-digit number otherwise)", found=neg or "ok")
     ctx.check("C11.T7", "writer:fullmove-field", fm_ok, fn=WRITER, file=fn["file"],
               what="a counter field that is computed must be the decimal text of an unsigned number (`<unsigned>.to_string()`)",
               expected="to_string(<unsigned integer>)", found={"terms": sorted(fm_terms)[:2], "to_string of": ts_bad})
